@@ -289,6 +289,7 @@ def stale_bound_rule(rep, fn):
     inloop = set().union(*[set(b) for b in loops.values()])
     for (pn, sn, usz) in pairs_for(fn):
         adv, szw, acc = [], [], set()
+        adv_pos = []
         for pos, root, x, ps in fn.nodes():
             t = None
             grows = False
@@ -301,10 +302,27 @@ def stale_bound_rule(rep, fn):
             if t is not None and t.get("k") == "ref":
                 if t["n"] == pn and pos[0] in inloop and grows:
                     adv.append(x)
+                    adv_pos.append((pos, x))
                 if t["n"] == sn:
                     szw.append(pos)
                 if grows and pos[0] in inloop:
                     acc.add(t["n"])
+        # a write through the advanced cursor whose extent is computed from the size alone
+        if adv and not szw:
+            for pos, root, c, ps in fn.calls({"memset", "memcpy", "memmove", "bzero", "explicit_bzero"}):
+                a0 = core.strip_casts(c["args"][0])
+                if not core.is_ref(a0, name=pn):
+                    continue
+                names = {r["n"] for r in core.refs(c["args"][-1])}
+                # the cursor advanced in a loop that is left before this write (or at a position that dominates it)
+                moved_before = [x for pp, x in adv_pos if fn.pos_dominates(pp, pos) or
+                                (pos[0] not in inloop and pos[0] in fn.reach_from([pp[0]]))]
+                if sn in names and pn not in names and moved_before:
+                    n += 1
+                    rep.violated("R-STALE", fn, "stale-extent:%s(%s)" % (c["fn"], pn),
+                                 "%s: the extent of %s through the advanced cursor '%s' accounts for how far it advanced" % (fn.name, c["fn"], pn),
+                                 "'%s' was advanced (line %s) but the length %s is computed from '%s' without it: the region does not end at the end "
+                                 "of the buffer" % (pn, moved_before[0].get("ln"), key(c["args"][-1])[:50], sn), c.get("ln"))
         if not adv or szw:
             continue
         for bid in sorted(inloop):
@@ -435,6 +453,57 @@ def tail_fill_rule(rep, fn):
     return n
 
 
+# ------------------------------------------------------------------ R-STALE: length computed from a cursor that moved since
+
+def stale_length_rule(rep, fn):
+    """`n = end - cur; ...; cur += k; ...; f(cur, n)`: a length that was computed as "end minus cursor" is handed to a callee
+    together with that cursor after the cursor has advanced (+=, ++): cur + n now lies k bytes behind `end`.  Reported when the
+    definition of n dominates the advance, which dominates the call that uses both."""
+    n = 0
+    u = fn.unit
+    pairs = dict(COPY_CALLS_PAIRS)
+    pairs.update({k_: [(a, b) for a, b, _rw in v] for k_, v in callee_pairs_for(fn).items()})
+    mods = {}
+    for pos, root, x, ps in fn.nodes():
+        t = None
+        if x.get("k") == "un" and ("++" in x["op"] or "--" in x["op"]):
+            t = core.strip_casts(x["e"])
+        elif x.get("k") == "bin" and x["op"].endswith("=") and x["op"] not in ("==", "!=", "<=", ">="):
+            t = core.strip_casts(x["x"])
+        if t is not None and t.get("k") == "ref" and t.get("dk") in ("local", "parm"):
+            mods.setdefault(t.get("id"), []).append((pos, x))
+    for pos, root, c, ps in fn.calls(set(pairs)):
+        for pi, li in pairs[c["fn"]]:
+            if pi >= len(c["args"]) or li >= len(c["args"]):
+                continue
+            cur, ln_ = core.strip_casts(c["args"][pi]), core.strip_casts(c["args"][li])
+            if cur.get("k") != "ref" or ln_.get("k") != "ref" or ln_.get("dk") != "local":
+                continue
+            def end_minus_cur(y):
+                y = core.strip_casts(y)
+                return (y is not None and y.get("k") == "bin" and y.get("op") == "-" and core.is_ref(core.strip_casts(y["y"]), id=cur.get("id"))
+                        and cur.get("id") not in core.ref_ids(y["x"]))
+            defs = [(p2, x2) for p2, x2 in mods.get(ln_.get("id"), []) if x2.get("k") == "bin" and x2["op"] == "=" and
+                    end_minus_cur(x2["y"]) and fn.pos_dominates(p2, pos)]
+            if not defs:
+                continue
+            dpos, dx = max(defs, key=lambda d: sum(1 for o in defs if fn.pos_dominates(o[0], d[0])))     # the closest dominating definition
+            n += 1
+            inst = "stale-length:%s(%s,%s)" % (c["fn"], cur["n"], ln_["n"])
+            desc = "%s: the length '%s' handed to %s with the cursor '%s' was computed from the cursor's current value" % (fn.name, ln_["n"], c["fn"], cur["n"])
+            moved = [(p3, x3) for p3, x3 in mods.get(cur.get("id"), []) if p3 != dpos and p3 != pos and fn.pos_dominates(dpos, p3) and
+                     fn.pos_dominates(p3, pos) and ((x3.get("k") == "un" and "++" in x3["op"]) or (x3.get("k") == "bin" and x3["op"] == "+="))]
+            if moved:
+                rep.violated("R-STALE", fn, inst, desc, "'%s' was computed at line %s, '%s' moved at line %s, and the call at line %s still passes the old "
+                             "length: the callee may read that many bytes past the end" % (ln_["n"], dx.get("ln"), cur["n"], moved[0][1].get("ln"), c.get("ln")), c.get("ln"))
+            else:
+                rep.proved("R-STALE", fn, inst, desc, "computed at line %s, cursor unchanged since" % dx.get("ln"), c.get("ln"))
+    return n
+
+
+COPY_CALLS_PAIRS = {"memcpy": [(0, 2), (1, 2)], "memmove": [(0, 2), (1, 2)], "memset": [(0, 2)], "memchr": [(0, 2)], "memcmp": [(0, 2), (1, 2)]}
+
+
 def run_scope(rep, tier, us, exclude=(), only=None, budget_quick=45, extra_rules=()):
     """analyse every function defined in the units' own files; returns (functions, tracked accesses)"""
     jobs = []
@@ -454,6 +523,7 @@ def run_scope(rep, tier, us, exclude=(), only=None, budget_quick=45, extra_rules
             stale_bound_rule(rep, fn)
             unguarded_write_rule(rep, fn)
             tail_fill_rule(rep, fn)
+            stale_length_rule(rep, fn)
             for r in extra_rules:
                 r(rep, fn)
     return nfn, total
@@ -477,4 +547,6 @@ def selftest_cursor():
             stale_bound_rule(rep, f)
             unguarded_write_rule(rep, f)
             tail_fill_rule(rep, f)
-    fixtures.expect(rep, ["fx_gather_bad", "fx_zero_bad", "fx_fill_bad"], ["fx_gather_ok", "fx_zero_ok", "fx_fill_ok"], "R-STALE / R-GUARD0 / tail fill")
+            stale_length_rule(rep, f)
+    fixtures.expect(rep, ["fx_gather_bad", "fx_zero_bad", "fx_fill_bad", "fx_pair_bad"], ["fx_gather_ok", "fx_zero_ok", "fx_fill_ok", "fx_pair_ok"],
+                    "R-STALE / R-GUARD0 / tail fill / stale length")
